@@ -7,7 +7,11 @@ use riti_harness::trace::*;
 use serde_json::json;
 use std::path::{Path, PathBuf};
 
+pub mod common;
 pub mod c01;
+pub mod c05;
+pub mod c06;
+pub mod c07;
 pub mod c03;
 pub mod c04;
 
@@ -44,6 +48,9 @@ pub fn run(a: &Args) -> i32 {
         "probe" => { probe(&env); return 0; }
         "c01" => c01::run(&env),
         "c03" => c03::run(&env),
+        "c05" => c05::run(&env),
+        "c06" => c06::run(&env),
+        "c07" => c07::run(&env),
         "c04" => c04::run(&env),
         x => { eprintln!("unknown stream {}", x); return 2; }
     };
